@@ -443,7 +443,7 @@ func EqualTypedValues(v1, v2 *sdcpb.TypedValue) bool {
 }
 
 func TypedValueToString(tv *sdcpb.TypedValue) string {
-	switch tv.Value.(type) {
+	switch tv.GetValue().(type) {
 	case *sdcpb.TypedValue_AnyVal:
 		return string(tv.GetAnyVal().GetValue()) // questionable...
 	case *sdcpb.TypedValue_AsciiVal:
@@ -454,19 +454,19 @@ func TypedValueToString(tv *sdcpb.TypedValue) string {
 		return string(tv.GetBytesVal()) // questionable...
 	case *sdcpb.TypedValue_DecimalVal:
 		d := tv.GetDecimalVal()
-		digitsStr := strconv.FormatInt(d.Digits, 10)
+		digitsStr := strconv.FormatInt(d.GetDigits(), 10)
 		negative := false
-		if d.Digits < 0 {
+		if d.GetDigits() < 0 {
 			negative = true
 			digitsStr = digitsStr[1:] // Remove the "-" sign for processing
 		}
 		// Add leading zeros if necessary
-		for uint32(len(digitsStr)) <= d.Precision {
+		for uint32(len(digitsStr)) <= d.GetPrecision() {
 			digitsStr = "0" + digitsStr
 		}
 		// Insert the decimal point
-		if d.Precision > 0 {
-			decimalPointIndex := len(digitsStr) - int(d.Precision)
+		if d.GetPrecision() > 0 {
+			decimalPointIndex := len(digitsStr) - int(d.GetPrecision())
 			digitsStr = digitsStr[:decimalPointIndex] + "." + digitsStr[decimalPointIndex:]
 		}
 		// Add back the negative sign if necessary
@@ -500,7 +500,7 @@ func TypedValueToString(tv *sdcpb.TypedValue) string {
 		// the value must not be casted to int, uint64 values above 2^63-1 would turn negative
 		return strconv.FormatUint(tv.GetUintVal(), 10)
 	case *sdcpb.TypedValue_IdentityrefVal:
-		return tv.GetIdentityrefVal().Value
+		return tv.GetIdentityrefVal().GetValue()
 	}
 	return ""
 }
